@@ -351,12 +351,23 @@ class PythonRegex(regex.Regex):
             elif len(rep) == 2:
                 n_rep, end = rep
                 repeated = self._find_repeated_sequence(res)
+                if n_rep == 0:
+                    # Zero repetition: only the empty word
+                    del res[len(res) - len(repeated):]
+                    res.append("$")
                 for _ in range(n_rep - 1):
                     res.extend(repeated)
                 idx = end + 1
             elif len(rep) == 3:
                 min_rep, max_rep, end = rep
                 repeated = self._find_repeated_sequence(res)
+                if min_rep == 0 and max_rep == 0:
+                    del res[len(res) - len(repeated):]
+                    res.append("$")
+                elif min_rep == 0:
+                    # The first occurrence is optional too
+                    res.append("?")
+                    min_rep = 1
                 for _ in range(min_rep - 1):
                     res.extend(repeated)
                 for _ in range(min_rep, max_rep):
